@@ -49,6 +49,7 @@ fn dispatch(op: &str, args: &[Sexp]) -> String {
         "tproto.export" => crate::props::c19::op_export(args),
         "tproto.import" => crate::props::c19::op_import(args),
         "tproto.rt" => crate::props::c19::op_rt(args),
+        "tetris.compile" => crate::props::c08::op_compile(args),
         "tf.apply" => crate::props::c12::op_apply(args),
         "tf.general" => crate::props::c12::op_general(args),
         "raw.flatten" => crate::props::c12::op_flatten(args),
